@@ -290,6 +290,9 @@ Proof.
   - exact Hcs'.
 Qed.
 
+Lemma app_ne_l {A} (a l : list A) : a <> [] -> a ++ l <> [].
+Proof. destruct a; [contradiction|discriminate]. Qed.
+
 Section AbsSpelling.
   Variable cwd : text.
   Variable ps : list text.
@@ -815,3 +818,308 @@ Section WalkTrue.
     rewrite Hhere. reflexivity.
   Qed.
 End WalkTrue.
+
+(* ------------------------------------------------------------------------------------------------------------------ *)
+(* declarative reading of the ideal walk *)
+
+Lemma assoc_in {B} n (l : list (text * B)) v : assoc n l = Some v -> In (n, v) l.
+Proof.
+  induction l as [|[k w] l IH]; [discriminate|]. cbn [assoc]. destruct (text_eqb n k) eqn:E.
+  - intros H. injection H as ->. apply text_eqb_eq in E. subst. left. reflexivity.
+  - intros H. right. apply IH. exact H.
+Qed.
+
+Lemma assoc_nodup {B} n (l : list (text * B)) v : NoDup (map fst l) -> In (n, v) l -> assoc n l = Some v.
+Proof.
+  induction l as [|[k w] l IH]; intros Hnd Hin; [destruct Hin|]. cbn [map fst] in Hnd. inversion Hnd as [|? ? Hk Hnd']; subst.
+  cbn [assoc]. destruct Hin as [E|Hin].
+  - injection E as -> ->. rewrite text_eqb_refl. reflexivity.
+  - destruct (text_eqb n k) eqn:E; [|apply IH; assumption].
+    apply text_eqb_eq in E. subst. exfalso. apply Hk. apply in_map_iff. exists (k, v). split; [reflexivity|exact Hin].
+Qed.
+
+(* the directory reached by the names cs *)
+Fixpoint dir_at (d : dir) (cs : list text) : option dir :=
+  match cs with
+  | [] => Some d
+  | n :: r => match assoc n (d_subs d) with Some sd => dir_at sd r | None => None end
+  end.
+
+Section Selected.
+  Variable matches : nat -> list text -> bool.
+  Variable ignore_files : bool.
+  Variable exts : list text.
+  Variable outer_hit : list text -> bool.
+  Variable out_name : list text -> text.
+
+  Notation loaded' := (loaded ignore_files).
+  Notation aload' := (aload ignore_files).
+
+  (* the ignore specs loaded in the directory q below the walked path *)
+  Definition specs_at (d : dir) (q : list text) : list (text * nat) :=
+    match dir_at d q with Some dd => loaded' dd | None => [] end.
+
+  (* [mode = true]: some ignore spec found in a directory between the walked path and the directory cs (both included) matches T,
+     the path being taken relative to the directory of the spec.  [mode = false]: only the directory cs itself is considered. *)
+  Definition inner_hit (mode : bool) (d : dir) (cs T : list text) : Prop :=
+    exists k fs, k <= length cs /\ (mode = false -> k = length cs) /\ In fs (specs_at d (firstn k cs)) /\ matches (snd fs) (skipn k T) = true.
+
+  Definition ignoredP (mode : bool) (d : dir) (cs T : list text) : Prop := outer_hit T = true \/ inner_hit mode d cs T.
+
+  (* the file f of the directory cs is selected: right extension, not ignored, and no directory on the way down was pruned
+     (a directory is pruned when "dir/*" is ignored, judged in its parent directory) *)
+  Definition selected (mode : bool) (d : dir) (cs : list text) (f : text) : Prop :=
+    exists dd, dir_at d cs = Some dd /\ In f (d_files dd) /\ match_file_extension f exts = true
+               /\ ~ ignoredP mode d cs (cs ++ [f])
+               /\ forall k, k < length cs -> ~ ignoredP mode d (firstn k cs) (firstn (S k) cs ++ [star_t]).
+
+  Notation hit' := (hit matches outer_hit).
+  Notation ideal' := (ideal matches ignore_files exts outer_hit out_name).
+
+  Definition hitG (d : dir) (cs0 : list text) (stack : list arec) (cs T : list text) : Prop :=
+    outer_hit (cs0 ++ T) = true
+    \/ (exists r, In r stack /\ matches (snd r) (skipn (length (rq r)) (cs0 ++ T)) = true)
+    \/ inner_hit true d cs T.
+
+  Lemma hit_true_iff stack T : hit' stack T = true <->
+    outer_hit T = true \/ exists r, In r stack /\ matches (snd r) (skipn (length (rq r)) T) = true.
+  Proof.
+    unfold hit. rewrite orb_true_iff, existsb_exists. reflexivity.
+  Qed.
+
+  Lemma specs_at_nil d : specs_at d [] = loaded' d.
+  Proof. reflexivity. Qed.
+
+  (* at the directory itself *)
+  Lemma hit_here d cs0 stack T : hit' (stack ++ aload' cs0 d) (cs0 ++ T) = true <-> hitG d cs0 stack [] T.
+  Proof.
+    rewrite hit_true_iff. unfold hitG. split.
+    - intros [H|[r [Hr Hm]]]; [left; exact H|]. apply in_app_iff in Hr as [Hr|Hr].
+      + right. left. exists r. split; assumption.
+      + right. right. unfold aload in Hr. apply in_map_iff in Hr as [fs [<- Hfs]]. unfold rq in Hm. cbn [fst snd] in Hm.
+        rewrite skipn_length_app in Hm. exists 0, fs. cbn [length firstn skipn]. rewrite specs_at_nil. repeat split; auto.
+    - intros [H|[[r [Hr Hm]]|[k [fs [Hk [_ [Hfs Hm]]]]]]]; [left; exact H| |].
+      + right. exists r. split; [apply in_app_iff; left; exact Hr|exact Hm].
+      + cbn [length] in Hk. assert (k = 0) by lia. subst k. cbn [firstn skipn] in *. rewrite specs_at_nil in Hfs.
+        right. exists (cs0, fst fs, snd fs). split.
+        * apply in_app_iff. right. unfold aload. apply in_map_iff. exists fs. split; [reflexivity|exact Hfs].
+        * unfold rq. cbn [fst snd]. rewrite skipn_length_app. exact Hm.
+  Qed.
+
+  (* one level down *)
+  Lemma hit_child files loads subs n sd cs0 stack cs' T' : assoc n subs = Some sd ->
+    hitG sd (cs0 ++ [n]) (stack ++ aload' cs0 (Dir files loads subs)) cs' T' <-> hitG (Dir files loads subs) cs0 stack (n :: cs') (n :: T').
+  Proof.
+    intros Ha. set (d := Dir files loads subs).
+    assert (Hspec : forall k, specs_at d (firstn (S k) (n :: cs')) = specs_at sd (firstn k cs')).
+    { intros k. unfold specs_at. cbn [firstn dir_at d_subs d]. rewrite Ha. reflexivity. }
+    unfold hitG. rewrite <- !app_assoc. cbn [app]. split.
+    - intros [H|[[r [Hr Hm]]|[k [fs [Hk [_ [Hfs Hm]]]]]]].
+      + left. exact H.
+      + apply in_app_iff in Hr as [Hr|Hr]; [right; left; exists r; split; assumption|].
+        right. right. unfold aload in Hr. apply in_map_iff in Hr as [fs [<- Hfs]]. unfold rq in Hm. cbn [fst snd] in Hm.
+        rewrite skipn_length_app in Hm. exists 0, fs. cbn [firstn skipn]. rewrite specs_at_nil. repeat split; [lia|discriminate|exact Hfs|exact Hm].
+      + right. right. exists (S k), fs. rewrite Hspec. cbn [length skipn]. repeat split; [lia|discriminate|exact Hfs|exact Hm].
+    - intros [H|[[r [Hr Hm]]|[k [fs [Hk [_ [Hfs Hm]]]]]]].
+      + left. exact H.
+      + right. left. exists r. split; [apply in_app_iff; left; exact Hr|exact Hm].
+      + destruct k as [|k].
+        * cbn [firstn skipn] in *. rewrite specs_at_nil in Hfs. right. left. exists (cs0, fst fs, snd fs). split.
+          -- apply in_app_iff. right. unfold aload. apply in_map_iff. exists fs. split; [reflexivity|exact Hfs].
+          -- unfold rq. cbn [fst snd]. rewrite skipn_length_app. exact Hm.
+        * rewrite Hspec in Hfs. cbn [length skipn] in *. right. right. exists k, fs. repeat split; [lia|discriminate|exact Hfs|exact Hm].
+  Qed.
+
+  Lemma ideal_true_gen : forall d, wf_dir d -> forall cs0 stack rel out,
+    In (rel, out) (ideal' true d cs0 stack) <->
+    exists cs f dd, rel = cs0 ++ cs ++ [f] /\ out = out_name rel /\ dir_at d cs = Some dd /\ In f (d_files dd)
+                    /\ match_file_extension f exts = true
+                    /\ ~ hitG d cs0 stack cs (cs ++ [f])
+                    /\ forall k, k < length cs -> ~ hitG d cs0 stack (firstn k cs) (firstn (S k) cs ++ [star_t]).
+  Proof.
+    induction d as [files loads subs IHsubs] using dir_ind'. intros Hwf cs0 stack rel out.
+    assert (Hwfs := wf_dir_subs files loads subs Hwf). rewrite Forall_forall in Hwfs, IHsubs.
+    assert (Hnd : NoDup (map fst subs)) by (cbn [wf_dir] in Hwf; tauto).
+    cbn [ideal]. set (d := Dir files loads subs) in *. set (stack2 := stack ++ aload' cs0 d).
+    rewrite in_app_iff, !in_flat_map. split.
+    - intros [[f [Hf Hin]]|[[n sd] [Hx Hin]]].
+      + destruct (match_file_extension f exts) eqn:Eext; [|destruct Hin].
+        destruct (hit' stack2 (cs0 ++ [f])) eqn:Ehit; [destruct Hin|]. cbn [negb andb] in Hin. destruct Hin as [E|[]].
+        injection E as <- <-. exists [], f, d. cbn [app length]. repeat split; auto.
+        * intros H. apply (hit_here d cs0 stack [f]) in H. fold stack2 in H. congruence.
+        * intros k Hk. lia.
+      + cbn [fst snd] in Hin. destruct (hit' stack2 (cs0 ++ [n; star_t])) eqn:Ehit; [destruct Hin|].
+        assert (Ha : assoc n subs = Some sd) by (apply assoc_nodup; assumption).
+        apply (IHsubs (n, sd) Hx (Hwfs (n, sd) Hx)) in Hin. destruct Hin as [cs' [f [dd [-> [-> [Hdd [Hf [Hext [Hnh Hpr]]]]]]]]].
+        exists (n :: cs'), f, dd. rewrite <- !app_assoc. cbn [app]. repeat split; auto.
+        * cbn [dir_at d_subs d]. rewrite Ha. exact Hdd.
+        * intros H. apply Hnh. apply (hit_child files loads subs n sd cs0 stack cs' (cs' ++ [f]) Ha). exact H.
+        * intros k Hk. destruct k as [|k].
+          -- cbn [firstn app]. intros H. apply (hit_here d cs0 stack [n; star_t]) in H. fold stack2 in H. congruence.
+          -- cbn [firstn app]. intros H. cbn [length] in Hk. apply (Hpr k); [lia|].
+             apply (hit_child files loads subs n sd cs0 stack (firstn k cs') (firstn (S k) cs' ++ [star_t]) Ha). exact H.
+    - intros [cs [f [dd [-> [-> [Hdd [Hf [Hext [Hnh Hpr]]]]]]]]]. destruct cs as [|n cs'].
+      + left. cbn [dir_at] in Hdd. injection Hdd as <-. exists f. split; [exact Hf|]. rewrite Hext.
+        destruct (hit' stack2 (cs0 ++ [f])) eqn:Ehit.
+        * exfalso. apply Hnh. apply (hit_here d cs0 stack [f]). exact Ehit.
+        * left. reflexivity.
+      + right. cbn [dir_at d_subs d] in Hdd. destruct (assoc n subs) as [sd|] eqn:Ha; [|discriminate].
+        assert (Hx := assoc_in n subs sd Ha). exists (n, sd). split; [exact Hx|]. cbn [fst snd].
+        destruct (hit' stack2 (cs0 ++ [n; star_t])) eqn:Ehit.
+        * exfalso. apply (Hpr 0); [cbn [length]; lia|]. cbn [firstn app]. apply (hit_here d cs0 stack [n; star_t]). exact Ehit.
+        * apply (IHsubs (n, sd) Hx (Hwfs (n, sd) Hx)). exists cs', f, dd. rewrite <- !app_assoc. cbn [app]. repeat split; auto.
+          -- intros H. apply Hnh. apply (hit_child files loads subs n sd cs0 stack cs' (cs' ++ [f]) Ha) in H. exact H.
+          -- intros k Hk H. apply (Hpr (S k)); [cbn [length]; lia|]. cbn [firstn app].
+             apply (hit_child files loads subs n sd cs0 stack (firstn k cs') (firstn (S k) cs' ++ [star_t]) Ha) in H. exact H.
+  Qed.
+
+  Theorem ideal_true_spec d rel out : wf_dir d ->
+    (In (rel, out) (ideal' true d [] []) <-> exists cs f, rel = cs ++ [f] /\ out = out_name rel /\ selected true d cs f).
+  Proof.
+    intros Hwf. rewrite (ideal_true_gen d Hwf [] [] rel out). cbn [app].
+    assert (HG : forall cs T, hitG d [] [] cs T <-> ignoredP true d cs T).
+    { intros cs T. unfold hitG, ignoredP. cbn [app]. split.
+      - intros [H|[[r [[] _]]|H]]; [left; exact H|right; exact H].
+      - intros [H|H]; [left; exact H|right; right; exact H]. }
+    split.
+    - intros [cs [f [dd [-> [-> [Hdd [Hf [Hext [Hnh Hpr]]]]]]]]]. exists cs, f. repeat split. exists dd. repeat split; auto.
+      + intros H. apply Hnh. apply HG. exact H.
+      + intros k Hk H. apply (Hpr k Hk). apply HG. exact H.
+    - intros [cs [f [-> [-> [dd [Hdd [Hf [Hext [Hnh Hpr]]]]]]]]]. exists cs, f, dd. repeat split; auto.
+      + intros H. apply Hnh. apply HG. exact H.
+      + intros k Hk H. apply (Hpr k Hk). apply HG. exact H.
+  Qed.
+End Selected.
+
+(* ------------------------------------------------------------------------------------------------------------------ *)
+(* names along a path of a well-formed tree; [selected] only looks at the outer specs on proper names *)
+
+Lemma dir_at_wf : forall cs d dd, wf_dir d -> dir_at d cs = Some dd -> names_ok cs /\ wf_dir dd.
+Proof.
+  induction cs as [|n r IH]; intros d dd Hwf H.
+  - cbn [dir_at] in H. injection H as <-. split; [constructor|exact Hwf].
+  - cbn [dir_at] in H. destruct d as [files loads subs]. cbn [d_subs] in H.
+    destruct (assoc n subs) as [sd|] eqn:Ha; [|discriminate]. apply assoc_in in Ha.
+    assert (Hs := wf_dir_subs files loads subs Hwf). rewrite Forall_forall in Hs. specialize (Hs (n, sd) Ha). cbn [snd] in Hs.
+    destruct (IH sd dd Hs H) as [H1 H2]. split; [|exact H2]. constructor; [|exact H1].
+    cbn [wf_dir] in Hwf. destruct Hwf as [_ [Hn _]]. unfold names_ok in Hn. rewrite Forall_forall in Hn. apply Hn.
+    apply in_map_iff. exists (n, sd). split; [reflexivity|exact Ha].
+Qed.
+
+Lemma names_ok_firstn k l : names_ok l -> names_ok (firstn k l).
+Proof.
+  revert k. induction l as [|a l IH]; intros k H; [destruct k; constructor|]. destruct k as [|k]; [constructor|].
+  inversion H; subst. cbn [firstn]. constructor; [assumption|apply IH; assumption].
+Qed.
+
+Lemma selected_ext matches ignore_files exts (oh oh' : list text -> bool) mode d cs f :
+  wf_dir d -> (forall T, names_ok T -> oh T = oh' T) ->
+  selected matches ignore_files exts oh mode d cs f -> selected matches ignore_files exts oh' mode d cs f.
+Proof.
+  intros Hwf Hoh [dd [Hdd [Hf [Hext [Hnh Hpr]]]]]. exists dd. repeat split; auto.
+  - destruct (dir_at_wf cs d dd Hwf Hdd) as [Hcs Hwdd]. intros [H|H]; apply Hnh; [left|right; exact H].
+    rewrite Hoh; [exact H|]. apply names_ok_app. split; [exact Hcs|]. constructor; [|constructor].
+    destruct dd as [fs ls ss]. cbn [wf_dir] in Hwdd. destruct Hwdd as [Hfs _]. unfold names_ok in Hfs. rewrite Forall_forall in Hfs. apply Hfs. exact Hf.
+  - destruct (dir_at_wf cs d dd Hwf Hdd) as [Hcs _]. intros k Hk [H|H]; apply (Hpr k Hk); [left|right; exact H].
+    rewrite Hoh; [exact H|]. apply names_ok_app. split; [apply names_ok_firstn; exact Hcs|constructor; [apply name_ok_star|constructor]].
+Qed.
+
+(* ------------------------------------------------------------------------------------------------------------------ *)
+(* absolute spellings *)
+
+Section AbsTheorem.
+  Variable matches : nat -> list text -> bool.
+  Variable cwd : text.
+  Variable ignore_files : bool.
+  Variable outer : list specrec.
+  Variable exts : list text.
+  Variable ps : list text.
+  Variable p : text.
+  Hypothesis ps_ne : ps <> [].
+  Hypothesis ps_ok : names_ok ps.
+  Hypothesis p_abs : abs_spelling ps p.
+
+  Lemma abspath_dn_abs T : names_ok T -> abspath cwd (dn p T) = slashcat (ps ++ T).
+  Proof. apply (abspath_dn cwd ps p ps_ne ps_ok p_abs). Qed.
+
+  Lemma R_abs q T : names_ok q -> names_ok T -> prefixb q T = true ->
+    relparts cwd (abspath cwd (dn p T)) (dn p q) = skipn (length q) T.
+  Proof.
+    intros Hq HT Hp. rewrite (abspath_dn_abs T HT). unfold relparts.
+    rewrite (parts_of_dn cwd ps p ps_ne ps_ok p_abs q Hq).
+    rewrite (parts_of_slashcat cwd (ps ++ T)); [|apply app_ne_l; exact ps_ne|apply names_ok_app; split; assumption].
+    apply prefixb_spec in Hp as [r ->]. rewrite (app_assoc ps q r). rewrite common_len_app, Nat.sub_diag. cbn [repeat app].
+    rewrite !skipn_length_app. reflexivity.
+  Qed.
+
+  (* do the outer specs match the file / "dir/*" with the names T below the walked path *)
+  Definition outer_hit_abs (T : list text) : bool := check_ignore_specs matches cwd (slashcat (ps ++ T)) outer.
+
+  Theorem walk_spec_abs_lemma d : wf_dir d -> forall rel out,
+    In (rel, out) (iter_files_in_path matches cwd ignore_files outer exts d p) <->
+    exists cs f, rel = cs ++ [f] /\ out = slashcat (ps ++ cs ++ [f])
+                 /\ selected matches ignore_files exts outer_hit_abs true d cs f.
+  Proof.
+    intros Hwf rel out. unfold iter_files_in_path.
+    destruct (walk_true matches cwd ignore_files outer exts p R_abs (keep_abs cwd ps p ps_ne ps_ok p_abs) d Hwf [] [] [])
+      as [J' [E _]]; [constructor|intros r []|intros r []|].
+    cbn [app map] in E. unfold dn at 1 in E. cbn [fold_left] in E. rewrite E. cbn [fst].
+    rewrite (ideal_true_spec matches ignore_files exts _ _ d rel out Hwf).
+    assert (Hoh : forall T, names_ok T -> ohit matches cwd outer p T = outer_hit_abs T).
+    { intros T HT. unfold ohit, outer_hit_abs. rewrite (abspath_dn_abs T HT). reflexivity. }
+    split.
+    - intros [cs [f [-> [-> Hsel]]]]. exists cs, f. split; [reflexivity|]. split.
+      + destruct Hsel as [dd [Hdd [Hf _]]]. destruct (dir_at_wf cs d dd Hwf Hdd) as [Hcs Hwdd].
+        assert (Hfn : name_ok f = true).
+        { destruct dd as [fs ls ss]. cbn [wf_dir] in Hwdd. destruct Hwdd as [Hfs _]. unfold names_ok in Hfs. rewrite Forall_forall in Hfs. apply Hfs. exact Hf. }
+        unfold oname. destruct (cs ++ [f]) as [|c r] eqn:Ecs; [destruct cs; discriminate|].
+        assert (Hall : names_ok (c :: r)) by (rewrite <- Ecs; apply names_ok_app; split; [exact Hcs|constructor; [exact Hfn|constructor]]).
+        rewrite (dn_cons ps p ps_ne ps_ok p_abs c r Hall).
+        apply normpath_slashcat; [apply app_ne_l; exact ps_ne|apply names_ok_app; split; assumption].
+      + eapply selected_ext; [exact Hwf|exact Hoh|exact Hsel].
+    - intros [cs [f [-> [-> Hsel]]]]. exists cs, f. split; [reflexivity|]. split.
+      + destruct Hsel as [dd [Hdd [Hf _]]]. destruct (dir_at_wf cs d dd Hwf Hdd) as [Hcs Hwdd].
+        assert (Hfn : name_ok f = true).
+        { destruct dd as [fs ls ss]. cbn [wf_dir] in Hwdd. destruct Hwdd as [Hfs _]. unfold names_ok in Hfs. rewrite Forall_forall in Hfs. apply Hfs. exact Hf. }
+        unfold oname. destruct (cs ++ [f]) as [|c r] eqn:Ecs; [destruct cs; discriminate|].
+        assert (Hall : names_ok (c :: r)) by (rewrite <- Ecs; apply names_ok_app; split; [exact Hcs|constructor; [exact Hfn|constructor]]).
+        rewrite (dn_cons ps p ps_ne ps_ok p_abs c r Hall).
+        symmetry. apply normpath_slashcat; [apply app_ne_l; exact ps_ne|apply names_ok_app; split; assumption].
+      + eapply selected_ext; [exact Hwf| |exact Hsel]. intros T HT. symmetry. apply Hoh. exact HT.
+  Qed.
+End AbsTheorem.
+
+(* the two absolute spellings (with and without trailing slash) select the same files under the same names *)
+Lemma abs_trailing_slash_same matches cwd ignore_files outer exts ps d : ps <> [] -> names_ok ps -> wf_dir d ->
+  forall x, In x (iter_files_in_path matches cwd ignore_files outer exts d (slashcat ps))
+            <-> In x (iter_files_in_path matches cwd ignore_files outer exts d (slashcat ps ++ [slash])).
+Proof.
+  intros Hne Hok Hwf [rel out].
+  rewrite (walk_spec_abs_lemma matches cwd ignore_files outer exts ps (slashcat ps) Hne Hok (or_introl eq_refl) d Hwf).
+  rewrite (walk_spec_abs_lemma matches cwd ignore_files outer exts ps (slashcat ps ++ [slash]) Hne Hok (or_intror eq_refl) d Hwf).
+  reflexivity.
+Qed.
+
+(* paths_from_path on an absolute spelling of a directory *)
+Lemma paths_from_path_abs matches cwd root ps p d ine ign wp exts :
+  ps <> [] -> names_ok ps -> abs_spelling ps p -> lookup root ps = NDir d -> wf_dir d ->
+  exists l, paths_from_path_g matches cwd root p ine ign wp exts false = Ok l /\
+    forall id out, In (id, out) l <->
+      exists cs f, id = ps ++ cs ++ [f] /\ out = slashcat (ps ++ cs ++ [f])
+                   /\ selected matches ign (map lower exts)
+                               (outer_hit_abs matches cwd (if ign then outer_specs cwd root p wp else []) ps) true d cs f.
+Proof.
+  intros Hne Hok Hp Hl Hwf. unfold paths_from_path_g.
+  assert (Eparts : parts_of cwd p = ps).
+  { destruct Hp as [-> | ->]; [apply parts_of_slashcat; assumption|apply parts_of_slashcat_gen; auto]. }
+  assert (Eemp : is_empty p = false).
+  { destruct ps as [|a r]; [contradiction|]. destruct Hp as [-> | ->]; reflexivity. }
+  rewrite Eparts, Eemp, Hl. cbn [andb negb].
+  eexists. split; [reflexivity|]. intros id out.
+  rewrite (ssort_in (out_leb) (id, out)). rewrite in_map_iff. split.
+  - intros [[rel o] [E Hin]]. cbn [fst snd] in E. injection E as <- <-.
+    apply (walk_spec_abs_lemma matches cwd ign _ (map lower exts) ps p Hne Hok Hp d Hwf) in Hin.
+    destruct Hin as [cs [f [-> [-> Hsel]]]]. exists cs, f. repeat split. exact Hsel.
+  - intros [cs [f [-> [-> Hsel]]]]. exists (cs ++ [f], slashcat (ps ++ cs ++ [f])). split; [reflexivity|].
+    apply (walk_spec_abs_lemma matches cwd ign _ (map lower exts) ps p Hne Hok Hp d Hwf). exists cs, f. repeat split. exact Hsel.
+Qed.
